@@ -162,6 +162,22 @@ func runC12(r *Run) {
 			r.Probe("simultaneous_arrivals_inside_acquire")
 			r.Nontrivial = true
 		}
+		// exactness whenever no caller is in the middle of an operation (also while goroutines the limiter may
+		// have spawned are still pending): a caller that has returned from Acquire has left the backlog
+		callerMidOp := false
+		for _, tk := range s.tasks {
+			if !tk.adopted && tk.MidOp() {
+				callerMidOp = true
+			}
+		}
+		if !callerMidOp {
+			var q int
+			var okq bool
+			if RootCall(func() { q, okq = sc.st.QueueSize() }) && okq && q != b {
+				s.Fail("backlog-mismatch", sc.cfg.Key()+"/after-return", "t=%s: no caller is inside an operation, %d caller(s) are blocked in Acquire, but the queue_size gauge reports %d [%s]", fmtDur(s.Now()), b, q, sc.cfg)
+				return
+			}
+		}
 		// solo operations must follow the sequential model
 		for _, cl := range sc.clients {
 			op := cl.acq
@@ -246,8 +262,13 @@ func runC13(r *Run) {
 	s := sc.s
 	if variantB {
 		// F-lag (strict): a releaser may be slow in the middle of its release; callers that were themselves
-		// runnable while time passed are not judged
+		// runnable while time passed are not judged on exact instants (they must still return)
 		s.LagPct = []int{0, 0, 15}[t.Intn(3, "lag-pct")]
+		s.LagStrict = true
+	} else if !variantC {
+		// all capacity held: a caller may be slow in the middle of Acquire (descheduled thread) while its bound
+		// passes; it is not judged on the exact instant, but it must come back
+		s.LagPct = []int{0, 0, 0, 15}[t.Intn(4, "lag-pct-a")]
 		s.LagStrict = true
 	}
 	sc.start()
@@ -266,8 +287,8 @@ func runC13(r *Run) {
 				if (isBlocking || cfg.Kind == "deadline") && cl.canceled.Load() && (cl.spec.preCancel || cl.cancelStep < cl.acq.Call) {
 					mustRefuse = "its context was already cancelled"
 				}
-				if cfg.Kind == "deadline" && arrive > int64(cfg.Deadline) {
-					mustRefuse = "the deadline had passed"
+				if cfg.Kind == "deadline" && arrive >= int64(cfg.Deadline) {
+					mustRefuse = "the deadline had been reached" // the instant equal to the deadline counts as passed
 				}
 				if mustRefuse == "" {
 					continue
